@@ -285,10 +285,11 @@ def oracle(case):
                     return f"no crossing for t={tj}: returned {sol.tolist()}, expected the single sample point closest to the target {info}"
         return None
     if cl == "metric":
-        pos, neg = np.array(case["pos"], dtype=float), np.array(case["neg"], dtype=float)
+        dt = int if case.get("int_dtype") else float
+        pos, neg = np.array(case["pos"], dtype=dt), np.array(case["neg"], dtype=dt)
         s = sa.Scores(pos, neg, nb_easy_pos=case["ep"], nb_easy_neg=case["en"], score_class=case["sc"], equal_class=case["ec"])
         tgt = np.array(case["t"])
-        allv = np.sort(np.concatenate([pos, neg]))
+        allv = np.sort(np.concatenate([pos, neg])).astype(float)
         # metrics by name and callables whose values leave [0,1]; targets inside, on the boundary of and outside the range of values
         for metric, tgt in (("fnr", np.array(case["t"] + [-0.2, 1.1])), (lambda o, th: o.topr(th) - 0.5 * o.fpr(th), np.array(case["t"] + [-0.3, -0.5, 1.4])),
                             (lambda o, th: 100.0 * o.fnr(th), np.array([0.0, 30.0, 50.0, 100.0, 130.0])), (lambda o, th: -o.tnr(th), np.array([-1.0, -0.5, -0.25, 0.0, 0.5]))):
@@ -343,7 +344,9 @@ def bounded(chk):
             continue
         for sc, ec in (("pos", "pos"), ("neg", "neg")):
             items.append({"clause": "metric", "pos": pos, "neg": neg, "ep": 0, "en": 1, "sc": sc, "ec": ec, "t": [0.0, 0.3, 0.5, 1.0]})
-    chk.bounded["bound"] = "all y in {0,0.5,1}^n for n<=5 nodes on x=0..n-1 (and with a duplicated node), 7 targets inside/outside/on the values; 40 random integer-valued curves; threshold_at_metric on all order types up to 4 scores with points None / 5 / user array, metric by name and callable"
+            if all(float(v).is_integer() for v in pos + neg):
+                items.append({"clause": "metric", "pos": [3 * v for v in pos], "neg": [3 * v for v in neg], "ep": 0, "en": 1, "sc": sc, "ec": ec, "t": [0.0, 0.3, 0.5, 1.0], "int_dtype": True})
+    chk.bounded["bound"] = "all y in {0,0.5,1}^n for n<=5 nodes on x=0..n-1 (and with a duplicated node), 7 targets inside/outside/on the values; 40 random integer-valued curves; threshold_at_metric on all order types up to 4 scores with points None / 5 / user array, metric by name and callable, float and integer score dtype"
     chk.bounded["rule"] = "enumerated + seeded"
     run_bounded(chk, items, eval_items)
     chk.samples.append({"bounded-case": items[30]})
